@@ -9,3 +9,6 @@ from harness import common as C
 pins = C.source_hashes()
 json.dump(pins, open(os.path.join(HERE, 'harness', 'source_pins.json'), 'w'), indent=1, sort_keys=True)
 print(len(pins), 'files pinned at', C.REPO)
+sig = C.signature_table()
+json.dump(sig, open(os.path.join(HERE, 'harness', 'signature_pins.json'), 'w'), indent=1, sort_keys=True)
+print(len(sig), 'signatures pinned')
